@@ -13,7 +13,7 @@
                         site-local / IPv4-compatible ones. *)
 From Coq Require Import ZArith Bool String List.
 From Ice Require Import Model.PrioSpec Model.GatherSpec Model.GatherStateCycle Gen.Names Gen.Prio
-     Proofs.GatherSpecProofs Proofs.GatherStateCycleProofs.
+     Proofs.GatherSpecProofs Proofs.GatherStateCycleProofs Model.GatherMapped Proofs.GatherMappedProofs.
 Import ListNotations.
 Local Open Scope Z_scope.
 
@@ -203,3 +203,51 @@ Example C18_example_cycle :
   exists s, reach true s /\ y_state s = 3 /\ y_gen s = 1%nat /\ y_pubs s = [(1%nat, 1%nat)] /\
             map g_nils (y_gors s) = [0%nat; 1%nat].
 Proof. exact example_cycle. Qed.
+
+(* ---- the mapped server-reflexive gatherer (address-rewrite rules of type server reflexive; Model/GatherMapped.v).
+   The theorems above are about agents without such rules (the harness' gather cases configure none); this gatherer
+   is modelled and exercised on its own (cases "gmapped": server-reflexive candidates only, no STUN/TURN URLs). *)
+
+(* every candidate it produces: server reflexive with that type enabled, published, on a socket the agent opened on
+   the wildcard address of an enabled UDP family, port and related port inside the configured range, not
+   location-tracked *)
+Theorem C18_mapped_sound : forall sk c e res d, nts_ok c ->
+  In d (mapped_model sk c e res) ->
+  d_type d = 2 /\ In 2 (c_ctypes c) /\ d_pub d = true /\
+  exists is6 ps a, d_base d = Some (wild is6, ps) /\ d_sock d = Some (wild is6) /\ d_port d = ps /\ d_disp d = DIP a /\
+    In (nt_of TUdp is6) (eff_nts (c_ntypes c)) /\ location_tracked a = false /\
+    (res is6 <> None) /\ (forall p, port_ok ps p = true -> in_cfg_range c p = true).
+Proof. exact mapped_sound. Qed.
+Print Assumptions C18_mapped_sound.
+
+(* a repaired gatherer (model parameter true) never publishes the unspecified address ... *)
+Theorem C18_mapped_not_unspecified : forall c e res d a,
+  In d (mapped_model true c e res) -> d_disp d = DIP a -> is_unspec a = false.
+Proof. exact mapped_not_unspecified. Qed.
+Print Assumptions C18_mapped_not_unspecified.
+
+(* ... the pinned code does: when no server-reflexive rule matches the wildcard listen address the mapper answers with
+   that address itself, and it is published as "0.0.0.0 <port> typ srflx" (known finding; not repaired because the
+   repository's own TestGatherCandidatesSrflxMappedMissingExternalIPs asserts that candidate) *)
+Theorem C18_mapped_unspecified_published_refuted :
+  exists d, In d (mapped_model false (mex_cfg None) mex_env (fun _ => Some [wild false])) /\ d_pub d = true /\ d_disp d = DIP (wild false).
+Proof. exact mapped_unspecified_published_refuted. Qed.
+Print Assumptions C18_mapped_unspecified_published_refuted.
+
+(* "sits on an interface and address accepted by the interface/IP filters": REFUTED for this gatherer -- its socket is
+   bound to the wildcard address whatever the filters say (known finding; the STUN server-reflexive gatherer binds to
+   the accepted addresses when filters are set: C18_sound_srflx_base) *)
+Theorem C18_mapped_base_ignores_filters_refuted :
+  let c := mex_cfg (Some (fun _ => false)) in
+  exists d b ps, In d (mapped_model true c mex_env (fun _ => Some [mex_ext])) /\ has_filters c = true /\
+                 d_base d = Some (b, ps) /\ is_unspec b = true /\ accepted_addr c [] b = false.
+Proof. exact mapped_base_ignores_filters_refuted. Qed.
+Print Assumptions C18_mapped_base_ignores_filters_refuted.
+
+(* the monitor accepts whatever corresponds to the repaired model, for the checks named in [sound_checks] (the filter
+   clause is violated by design; equality of port and related port is not recorded by the correspondence relation) *)
+Theorem C18_mapped_monitor_sound_partial : forall c ifs e res pub socks, nts_ok c ->
+  corresponds (mapped_model true c e res) pub socks = true ->
+  forall n, In n sound_checks -> ~ In n (failed (C18_mapped_checks c ifs pub socks)).
+Proof. exact mapped_monitor_sound_partial. Qed.
+Print Assumptions C18_mapped_monitor_sound_partial.
